@@ -102,6 +102,45 @@ fn random_spellings_escapes(src: &mut Src, obs: &mut Obs) -> Res {
     check(src, &q, &doc, 4, &SpellCfg { escapes: true }, obs)
 }
 
+/// long lists of records with an optional member under a filter that is ONE test (the query every user writes):
+/// `?e`, `?(e)` and `?((e))`, `.n` and `['n']`, blanks and number spellings select the same records - also
+/// the records that lack the member, also beyond 32 / 64 / 256 elements
+fn random_record_filters(src: &mut Src, obs: &mut Obs) -> Res {
+    let n = *src.pick(&[3usize, 31, 32, 33, 40, 64, 65, 100, 257]);
+    let vals = [J::Str("admin".into()), J::Str("user".into()), J::Int(1), J::Int(2), J::Null, J::Bool(true), J::Float(1.0)];
+    let rows: Vec<J> = (0..n)
+        .map(|i| {
+            if src.chance(1, 12) {
+                return src.pick(&[J::Null, J::Int(i as i64), J::Str("admin".into()), J::Arr(vec![])]).clone();
+            }
+            let mut m: Vec<(String, J)> = vec![("id".to_string(), J::Int(i as i64))];
+            if !src.chance(1, 4) {
+                m.push(("role".to_string(), src.pick(&vals).clone()));
+            }
+            J::Obj(m).sorted()
+        })
+        .collect();
+    let under = src.bool();
+    let doc = if under { J::Obj(vec![("users".to_string(), J::Arr(rows))]) } else { J::Arr(rows) };
+    let op = src.pick(&Op::ALL).text();
+    let lit = *src.pick(&["'admin'", "1", "null", "true", "2"]);
+    let test = match src.below(8) {
+        0 => format!("{} {} @.role", lit, op),
+        1 => "@.role".to_string(),
+        2 => "!@.role".to_string(),
+        3 => format!("length(@.role) {} 4", op),
+        4 => "match(@.role, 'a.*')".to_string(),
+        _ => format!("@.role {} {}", op, lit),
+    };
+    let text = format!("{}[?{}]", if under { "$.users" } else { "$" }, test);
+    let q = match crate::recog::parse_ast(&text) {
+        Some(q) => q,
+        None => return Err(Failure::new("harness inconsistency: the record-filter family produced a query outside the recogniser's language", json!({"query": text}))),
+    };
+    obs.label("record-filter");
+    check(src, &q, &doc, 5, &SpellCfg { escapes: false }, obs)
+}
+
 /// numbers: integer / float / exponent spellings compare alike, on both sides of every operator
 fn random_numbers(src: &mut Src, obs: &mut Obs) -> Res {
     let vals = [0i64, 1, -1, 10, 100, -100, 7, 1000, 120, 5];
@@ -173,6 +212,7 @@ pub fn prop() -> Prop {
             Sub { name: "random-spellings", kind: Kind::Random { f: random_spellings, quick: 60_000, thorough: 1_200_000, len: 700 } },
             Sub { name: "random-spellings-escapes", kind: Kind::Random { f: random_spellings_escapes, quick: 30_000, thorough: 600_000, len: 700 } },
             Sub { name: "random-numbers", kind: Kind::Random { f: random_numbers, quick: 30_000, thorough: 600_000, len: 200 } },
+            Sub { name: "random-record-filters", kind: Kind::Random { f: random_record_filters, quick: 12_000, thorough: 240_000, len: 700 } },
         ],
         direct: Some(direct),
         selftest: Some(crate::rfc::selftest),
